@@ -23,7 +23,14 @@ func runTLV(id string, toks []string) (res string) {
 	case "sets":
 		c := util.NewTLV8Container()
 		tags := map[int]bool{0: true, 255: true}
-		for _, t := range toks[1:] {
+		var reads strings.Builder
+		for i, t := range toks[1:] {
+			if strings.HasPrefix(t, "?") { // a read in the middle of the history
+				tag, _ := strconv.Atoi(t[1:])
+				tags[tag] = true
+				fmt.Fprintf(&reads, " q%d=%s/%d", i, hx(c.GetBytes(byte(tag))), c.GetByte(byte(tag)))
+				continue
+			}
 			p := strings.SplitN(t, ":", 2)
 			tag, _ := strconv.Atoi(p[0])
 			tags[tag] = true
@@ -35,7 +42,7 @@ func runTLV(id string, toks []string) (res string) {
 			}
 		}
 		ser := c.BytesBuffer().Bytes()
-		out := "ser=" + hx(ser)
+		out := "ser=" + hx(ser) + reads.String()
 		c2, err := util.NewTLV8ContainerFromReader(bytes.NewBuffer(ser))
 		if err != nil {
 			return out + " reparse=err"
